@@ -22,6 +22,8 @@ Sub-oracles (all only where EOM.successTemperatureProfile is True)
   asym-t33 / asym-t30 / asym-branch
                        first/last grid point versus the matching values (T-, -v-), (T+, -v+)
   vmid-convention      velocityMid of findHydroBoundaries is the wall-frame mid-point -(v+ + v-)/2
+  gradient-consistency the gradient EOM.wallProfile hands over is the z-derivative of the field profile it returns
+                       (central difference of the same routine; relative 1e-6 of the peak gradient)
 """
 from __future__ import annotations
 
@@ -331,6 +333,24 @@ def check_case(case) -> Verdict:
             chi = np.asarray(eom.grid.chiValues, dtype=float)
             n = len(z)
             fields, dfields = eom.wallProfile(z, vevL, vevH, wp)
+            # "the scalar-field gradient energy": the gradient wallProfile hands to the profile solver must be the
+            # z-derivative of the field profile it returns (metamorphic: central difference of the same routine
+            # evaluated at z -+ h; truncation (h/L)^2/3 ~ 1e-10 and rounding eps*|phi|/h ~ 1e-10 of the peak gradient)
+            v.checked("gradient-consistency")
+            hstep = 1e-5 * float(np.min(widths))
+            fplus = np.asarray(eom.wallProfile(z + hstep, vevL, vevH, wp)[0], dtype=float).reshape(n, nf)
+            fminus = np.asarray(eom.wallProfile(z - hstep, vevL, vevH, wp)[0], dtype=float).reshape(n, nf)
+            dnum = (fplus - fminus) / (2 * hstep)
+            dgot = np.asarray(dfields, dtype=float).reshape(n, nf)
+            gscale = np.maximum(np.max(np.abs(dnum), axis=0), 1e-300)
+            gerr = np.max(np.abs(dgot - dnum) / gscale[None, :], axis=0)
+            v.info["gradient_consistency_err"] = float(np.max(gerr))
+            if float(np.max(gerr)) > 1e-6:
+                kf = int(np.argmax(gerr))
+                v.fail("gradient-consistency", f"offsets={'zero' if not np.any(offs) else 'nonzero'} nf={nf}",
+                       f"EOM.wallProfile: returned d(phi_{kf})/dz differs from the z-derivative of the returned field "
+                       f"profile by {gerr[kf]:.3e} of its peak value (widths*Tn={shape['w']}, offsets={shape['off']})",
+                       vw=vw)
             dkind = "none"
             vals = {k: np.zeros((npart, n)) for k in ("D00", "D02", "D20", "D11")}
             if shape.get("deltas") and npart:
